@@ -220,6 +220,15 @@ func (w *world) Finished(e *sim.Env) bool {
 		wait += stalls + time.Second + time.Duration(w.nestedN+len(w.order))*time.Millisecond
 		e.Spawn("zepi1", func() {
 			zsimrt.Sleep("epi:wait", wait)
+			// practically-never futures are cancelled now (by a task, not by the
+			// scheduler) so that the pool can wind down
+			for _, id := range append([]string(nil), w.order...) {
+				f := w.futs[id]
+				if f.d > practicallyNever && f.count == 0 && f.f != nil && !f.cancelInv {
+					f.cancelInv = true
+					f.f.Cancel()
+				}
+			}
 			w.phase = 2
 		}, w.onPanic)
 		return false
@@ -232,10 +241,6 @@ func (w *world) Finished(e *sim.Env) bool {
 		for _, id := range ids {
 			f := w.futs[id]
 			if f.d > practicallyNever {
-				if f.count == 0 && f.f != nil {
-					f.cancelInv = true
-					f.f.Cancel() // so that the pool can wind down
-				}
 				continue
 			}
 			if !f.cancelInv && f.count != 1 {
